@@ -43,7 +43,7 @@ CHECKS = {
              'reference encoders cover TLC recomputes the payload from (id, typed field values). Programs include the '
              'context-dependent leaf Position, flat and inside nested arrays, encoded under both layouts and replayed under a context '
              'of the matching era.',
-        note='Trusted: TLC, pynbt (opaque), the harness\'s value generators and hand-written builders for the six hand-written codecs. A '
+        note='Half of the generated strings are built from special code points (section sign, controls, NUL, BOM, non-characters, quotes, bidi / zero-width). Trusted: TLC, pynbt (opaque), the harness\'s value generators and hand-written builders for the six hand-written codecs. A '
              'change applied consistently to reader and writer of a hand-written codec is C07\'s to catch for core packets.',
         design='5/C05'),
     'C20': dict(
@@ -92,7 +92,7 @@ CHECKS = {
              'lengths 1..64, 1024- and 2048-bit keys). Traces come from whole encrypted logins against the independent peer (which '
              'encrypts with its own CFB8 loop, so interoperation is exercised) and from the wrappers driven directly with random '
              'partitions in both directions.',
-        note='Trusted: TLC arithmetic / Bitwise overrides, Python pow() for the private-key operation. Randomness is checked for source, '
+        note='Groups of three logins through one Connection object must negotiate distinct secrets. Trusted: TLC arithmetic / Bitwise overrides, Python pow() for the private-key operation. Randomness is checked for source, '
              'use and distinctness only. About 2.5 KB (quick) of stream are recomputed by the TLA+ AES.',
         design='5/C18'),
     'C17': dict(
@@ -123,7 +123,7 @@ CHECKS = {
              'scenarios (all with long call logs, a seeded sample of the rest) run against the real code; the handler call log with '
              'the exception each handler saw, the final handler\'s argument, connection.exception, whether run() re-raised, the '
              'socket closed at the peer, the cleared thread slot and a following connect() are compared with the model.',
-        note='Also: the re-raised exception must be the last exception of the chain; a packet queued by the failing listener and a raising outgoing listener must not be reached by the fault\'s clean-up. Trusted: TLC, scheduler and virtual primitives, peer codec. Chains of 4 handlers are not generated.',
+        note='Faults during the status query that precedes a login, with I/O-family exception types, are routed like any other. Also: the re-raised exception must be the last exception of the chain; a packet queued by the failing listener and a raising outgoing listener must not be reached by the fault\'s clean-up. Trusted: TLC, scheduler and virtual primitives, peer codec. Chains of 4 handlers are not generated.',
         design='5/C14'),
     'C12': dict(
         technique='TLA+ model of concurrent writers (ConnWriter.tla) with all interleavings checked by TLC (the variant without the '
@@ -139,7 +139,7 @@ CHECKS = {
              'per-thread reordering, a close before the flush, bytes after an immediate disconnect, lost forced writes, and an '
              'undecodable stream. Writers also race an encrypted login (forced write + cipher swap under the lock), and bursts of '
              '301-620 queued packets - more than the networking thread\'s 300-packet write batch - precede a non-immediate disconnect.',
-        note='Also: user-defined packets whose serialisation force-writes another packet on the same connection (re-entrant write lock). Every client frame of every execution is also judged by the connection-state grammar Trace_Session.tla. Trusted: TLC, scheduler and virtual primitives, CPython deque atomicity, the peer\'s deframer. Writes issued after the '
+        note='Bursts go up to 4200 queued packets (nothing handed in may be dropped). Also: user-defined packets whose serialisation force-writes another packet on the same connection (re-entrant write lock). Every client frame of every execution is also judged by the connection-state grammar Trace_Session.tla. Trusted: TLC, scheduler and virtual primitives, CPython deque atomicity, the peer\'s deframer. Writes issued after the '
              'connection has been closed are outside the contract.',
         design='5/C12'),
     'C16': dict(
@@ -157,7 +157,7 @@ CHECKS = {
              'history <= 4 and thousands of two-thread scenarios with real threads under a token-passing scheduler (virtual lock, '
              'socket with separate read / write halves, select, queue, thread start/join; servers that accept, refuse, disconnect, close '
              'or stall in the middle of a frame); every execution is judged event by event by the contract.',
-        note='Lifecycle servers announce compression at random and C16 owns the session grammar (Trace_Session): a reconnect that opens with an undecodable handshake has not connected again. Trusted: TLC, the scheduler and virtual primitives (semantics observed on real sockets), CPython atomicity of attribute '
+        note='Contract clause (e): a failed connection\'s error handling must not tear down a connection made before the failure. Lifecycle servers announce compression at random and C16 owns the session grammar (Trace_Session): a reconnect that opens with an undecodable handshake has not connected again. Trusted: TLC, the scheduler and virtual primitives (semantics observed on real sockets), CPython atomicity of attribute '
              'access. API bodies are atomic in the model because the code holds the write lock throughout. An extra invariant '
              '(NoCrossTeardown) fails in the model: observation outside the listed properties, recorded in DESIGN.md.',
         design='5/C16'),
@@ -174,7 +174,7 @@ CHECKS = {
              'client must finish the execution (not exhaust the step budget, not spin on empty reads, not block, not idle for ever), '
              'report an error - or take exactly the documented fallback to the default version when the status query went '
              'unanswered - and deliver only completely sent packets; each run is judged read by read by the contract in TLC.',
-        note='Trusted: TLC, the scheduler and virtual socket layer as the observer of liveness (step budget 60000, spin = 50 empty '
+        note='Two conversations carry a 20 KB frame (plain / encrypted) with sampled cut offsets. Trusted: TLC, the scheduler and virtual socket layer as the observer of liveness (step budget 60000, spin = 50 empty '
              'reads), the peer codec.',
         design='5/C15'),
     'C01': dict(
@@ -195,7 +195,7 @@ CHECKS = {
              'WellFramed / PayloadRecovered over boundary sizes x thresholds x deflated sizes (the variant sizing the header by the '
              'deflated length must fail); frames of the real writer are measured without trusting their declared lengths (the end of the '
              'deflate stream is found by inflating) and judged by Trace_FrameWriter.tla.',
-        note='Every client frame of every execution is also judged by the connection-state grammar Trace_Session.tla. Trusted: TLC, virtual socket layer, zlib, the peer codec (AES block from cryptography, checked by C18). The exact '
+        note='Also: compression enabled with threshold -1 as the state of a live connection (both directions). Every client frame of every execution is also judged by the connection-state grammar Trace_Session.tla. Trusted: TLC, virtual socket layer, zlib, the peer codec (AES block from cryptography, checked by C18). The exact '
              'compress-iff-larger-than-threshold rule is model-level (drift), the contract requires recoverability and no compressed '
              'frame below the threshold.',
         design='5/C01'),
@@ -215,7 +215,7 @@ CHECKS = {
              'configurations one and the same callable is registered for several listeners of a list) '
              'code with the registration order shuffled across lists and the exact call log and the answers the peer saw compared; '
              'random configurations with up to 3 listeners per list are judged by TLC running the model from the recorded configuration.',
-        note='Also: early listeners that call disconnect() on their own connection (only \'ignore\' stops stages: DisconnectingListenerStopsNothing). Trusted: TLC, virtual socket layer, peer codec. Listeners are registered while the networking thread is idle.',
+        note='Incoming listeners (superclass filters among them) may be registered after packets of their classes have been dispatched (Dispatch!late). Also: early listeners that call disconnect() on their own connection (only \'ignore\' stops stages: DisconnectingListenerStopsNothing). Trusted: TLC, virtual socket layer, peer codec. Listeners are registered while the networking thread is idle.',
         design='5/C13'),
     'C09': dict(
         technique='TLA+ model of construction / negotiation / status queries (SessionNegotiate.tla) explored exhaustively; every '
@@ -229,7 +229,7 @@ CHECKS = {
              'versions given as names or numbers over four protocol maps (incl. 2^30-flagged numbers, first and last supported); the '
              'frames the peer decoded on each TCP connection, the connection count, the surfaced exception (class, server_protocol, '
              'wording supported/allowed), handler calls, latency sign, close and exit callback are compared with the model.',
-        note='The scenarios are re-run after the supported-version table has been changed at run time (one version added, one withdrawn, initglobals()). Every client frame of every execution is also judged by the connection-state grammar Trace_Session.tla. Trusted: TLC, virtual socket layer, peer codec. The status-phase handshake may carry any allowed version (contract); the '
+        note='Also: a status query after a failed attempt on the same Connection object. The scenarios are re-run after the supported-version table has been changed at run time (one version added, one withdrawn, initglobals()). Every client frame of every execution is also judged by the connection-state grammar Trace_Session.tla. Trusted: TLC, virtual socket layer, peer codec. The status-phase handshake may carry any allowed version (contract); the '
              'model says the latest. Default handlers are observed through captured stdout.',
         design='5/C09'),
     'C10': dict(
@@ -281,7 +281,7 @@ CHECKS = {
              'invariants and idempotence on all histories and every reachable state is replayed into minecraft/__init__.py; after '
              'every full re-initialisation the predicates are re-evaluated through utility, through fresh ConnectionContext objects '
              'and through contexts that existed before the extension, and a Connection is constructed.',
-        note='Trusted: TLC, JSON hand-over, the release-name regular expression re-stated in the harness. Dynamic part over a '
+        note='In a third of the histories the records are re-assigned to a new list instead of being edited in place. Trusted: TLC, JSON hand-over, the release-name regular expression re-stated in the harness. Dynamic part over a '
              '3-record base list and a pool of 6 extensions (<= 3 / 4 operations).',
         design='5/C08'),
     'C04': dict(
@@ -309,7 +309,7 @@ CHECKS = {
              'descending, zig-zag and shuffled version orders (must stay total and injective whatever was built before) and the '
              'reactors are rebuilt on one context walked across all versions; reactors of all versions are kept alive and re-checked '
              'after the others have been built. Exhaustive over the quantifier of the property.',
-        note='Application subclasses of every registered class and library base are defined before the tables are rebuilt: none may appear in a table. Trusted: TLC, JSON hand-over. Nine collisions inside snapshot windows are recorded as known findings '
+        note='State hand-over probe: one frame read through the real read_packet by the login reactor and then by the playing reactor of the same connection. Application subclasses of every registered class and library base are defined before the tables are rebuilt: none may appear in a table. Trusted: TLC, JSON hand-over. Nine collisions inside snapshot windows are recorded as known findings '
              '(known_findings.json); entries so excused are excluded from the TLC walk, every other collision alarms.',
         design='5/C06'),
     'C02': dict(
